@@ -35,6 +35,8 @@ def _mutate(name):
         return
     if name == 'no_global_merge':
         new = code.replace('template("econtext.update(rcontext)")', '[]')
+    elif name == 'fill_left_behind':
+        new = code.replace('template("econtext.update(rcontext)") +\n            cleanup', 'template("econtext.update(rcontext)")')
     elif name == 'extend_drops_appendleft':
         new = code.replace('orelse=append,', 'orelse=[],')
     elif name == 'slot_default_when_filled':
